@@ -16,29 +16,69 @@ IO_EFFECTS = {"std::io::Write::write_all", "std::io::Write::flush", "std::io::Se
               "std::fs::File::create", "std::fs::remove_file", "std::fs::remove_dir_all", "std::fs::create_dir_all"}
 
 # Reasoned table for R03.d: (enclosing fn suffix, callee suffix, disposition) -> reason
+# Reasoned table for results that are neither propagated nor returned AND whose failure can still end in a success return.
+# Keyed by (module of the enclosing function, callee, disposition): moving code between functions of one file changes no key.
+# Sites whose failure arm cannot reach a success return (error paths: rollbacks, cleanups behind `return Err(e)`), and sites in private
+# helpers that are only called on such paths, are discharged generically and need no entry.
 BEST_EFFORT = {
-    ("index::cleanup_segments", "storage::Storage::remove", "discarded"):
-        "orphan segment files are harmless; callers run after the manifest no longer references them",
-    ("index::cleanup_segments", "storage::Storage::remove_dir_all", "discarded"):
+    ("index", "storage::Storage::remove", "discarded"):
+        "cleanup_segments: orphan segment files are harmless; callers run after the manifest no longer references them",
+    ("index", "storage::Storage::remove_dir_all", "discarded"):
         "same, vector directory",
-    ("api::writer::IndexWriter::commit", "index::cleanup_segments", "discarded"):
-        "error arm: best-effort removal of never-published files; the original error is returned",
-    ("api::writer::IndexWriter::commit", "index::wal::Wal::truncate_to", "matched"):
-        "error arm: failure is logged, the original commit error is returned",
-    ("api::writer::IndexWriter::commit", "index::manifest::Manifest::store", "matched"):
-        "error arm (rollback store): failure is logged and gates the cleanup (R03.c); the original error is returned",
-    ("api::writer::IndexWriter::commit", "api::writer::IndexWriter::commit::{closure}", "matched"):
-        "the persist closure's error selects the rollback arm, which returns it",
-    ("api::writer::IndexWriter::commit", "index::wal::Wal::truncate", "matched"):
+    ("api::writer", "index::wal::Wal::truncate", "matched"):
         "after publish the commit is fully applied; a failing log truncation is logged (the log ends in a commit marker, "
         "so nothing is replayed) and success is returned",
-    ("api::writer::IndexWriter::add_documents", "index::wal::Wal::append_add_doc", "matched"):
-        "batch add: a failed append restores queue and log (C23 R23.b) and returns the error",
-    ("api::writer::IndexWriter::add_documents", "index::wal::Wal::truncate_to", "matched"):
-        "batch add error arm: failure to cut the log back is logged, the original append error is returned",
-    ("<api::writer::IndexWriter as core::ops::drop::Drop>::drop", "index::wal::Wal::sync", "matched"):
+    ("api::writer", "index::wal::Wal::sync", "matched"):
         "Drop cannot return an error; failure is reported on stderr",
 }
+
+
+def _module_of(f):
+    m = f.file
+    for pre in ("searchlite-core/src/", "searchlite-http/src/", "searchlite-cli/src/", "searchlite-ffi/src/"):
+        if m.startswith(pre):
+            m = m[len(pre):]
+    m = m[:-3] if m.endswith(".rs") else m
+    if m.endswith("/mod"):
+        m = m[:-4]
+    return m.replace("/", "::")
+
+
+def _cannot_reach_success(f, b):
+    """No success return of f is reachable from block b (f returns a Result / Option)."""
+    oks = ok_sites(f)
+    if not oks and not err_sites(f):
+        return False
+    reach = f.reachable_from(b)
+    return not any(o.b in reach for o in oks)
+
+
+def _error_path_only(P, g, depth=0, seen=None):
+    """Every call of g in the workspace sits on a path that cannot reach a success return of its caller (or the caller is itself
+    only used that way): g is clean-up code of error paths."""
+    seen = seen if seen is not None else set()
+    if g.path in seen or depth > 3:
+        return False
+    seen.add(g.path)
+    callers = P.callers().get(g.path, []) if hasattr(P, "callers") else []
+    sites = []
+    for q, h in P.fns.items():
+        if h.crate != g.crate:
+            continue
+        for b, t in h.calls():
+            if callee_of(t) == g.path:
+                sites.append((h, b))
+    if not sites:
+        return False
+    for h, b in sites:
+        if h.ret_ty.startswith(("core::result::Result<", "core::option::Option<")):
+            # the failure arm of the call itself does not matter here: g returns nothing useful; look at where the call sits
+            succ = h.blocks[b]["term"].get("target")
+            if succ is None or not _cannot_reach_success(h, succ):
+                return False
+        elif not _error_path_only(P, h, depth + 1, seen):
+            return False
+    return True
 
 
 def r03ab(ctx, P):
@@ -105,9 +145,17 @@ def r03c(ctx, P, commit):
                   "outcome of the rollback Manifest::store (if the first store failed after its effect and the rollback fails "
                   "too, the on-disk manifest still names the new segment)")
     cleanups = [Site(commit, b) for b, t in commit.calls() if callee_of(t) == N.CLEANUP]
-    persist = [s for s in P.sites_calling(commit, N.is_(N.WAL_APPEND_COMMIT), include_closure_construction=False)]
-    stores = [s for s in P.sites_calling(commit, N.is_(N.MAN_STORE), include_closure_construction=False)
-              if not any(s.key() == p.key() for p in persist)]
+    pubs = publish_sites(P, commit)
+    marker = [s for s in P.sites_calling(commit, N.is_(N.WAL_APPEND_COMMIT), include_closure_construction=False)]
+    all_stores = P.sites_calling(commit, N.is_(N.MAN_STORE), include_closure_construction=False)
+    # the persist step: the site(s) that make the new manifest and the commit marker durable — the call reaching the marker, and,
+    # when the step is written out in this function, the store of the new manifest (it dominates the in-memory publish) and the
+    # marker sync behind it
+    new_stores = [s for s in all_stores if pubs and all(commit.dominates(s, p) for p in pubs)]
+    syncs = [s for s in P.sites_calling(commit, N.is_(N.WAL_SYNC), include_closure_construction=False)
+             if any(commit.dominates(m, s) for m in marker) and pubs and all(commit.dominates(s, p) for p in pubs)]
+    persist = list({s.key(): s for s in marker + new_stores + syncs}.values())
+    stores = [s for s in all_stores if not any(s.key() == p.key() for p in persist)]
     # rollback stores = stores reachable only after the persist site failed
     ctx.floor(rid, len(cleanups), 1, "cleanup_segments sites in commit")
     ctx.floor(rid + ".rollback-store", len(stores), 1, "rollback Manifest::store sites in commit")
@@ -268,7 +316,8 @@ def r03d(ctx, P):
     rid = "R03.d"
     ctx.rule(rid, "FLOW: every call in the write path (writer, index, wal, segment, terms, fastfields, manifest, docstore, "
                   "postings, storage) that returns a Result and performs a storage/IO effect has its result propagated with `?`, "
-                  "returned, or is one of the enumerated matched/best-effort sites (keyed by enclosing fn + callee + disposition)")
+                  "returned, handled on a path that cannot end in a success return (generic discharge), or is one of the enumerated best-effort sites "
+                  "(keyed by module + callee + disposition, so moving code between functions of a file changes no key)")
     pred = N.is_storage_or_io
     n = 0
     seen_table = set()
@@ -294,16 +343,30 @@ def r03d(ctx, P):
             d = disposition(f, b, t)
             site = Site(f, b)
             if d in ("propagated", "returned"):
-                ctx.ob(rid, "%s:%s:%s:%s" % (rid, f.short, _short(cal), d), True,
+                ctx.ob(rid, "%s:%s:%s:%s" % (rid, _module_of(f), _short(cal), d), True,
                        "result of %s is %s" % (_short(cal), d), site.loc())
                 continue
             root = f
             while root.kind == "closure" and root.parent and P.fn(root.parent):
                 root = P.fn(root.parent)
-            tkey = (root.short, _short(cal), d)
+            # generic discharge: the failure of this call cannot end in a success return
+            generic = None
+            if d == "matched":
+                arms = outcome_arms(f, site)
+                if arms["err"] and f.ret_ty.startswith("core::result::Result<") and all(_cannot_reach_success(f, e) for e in arms["err"]):
+                    generic = "matched, and the failure arm cannot reach a success return: the error (or the one being handled) is returned"
+            if generic is None and f.ret_ty.startswith("core::result::Result<") and _cannot_reach_success(f, b):
+                generic = "the call sits on a path that returns an error: best-effort handling while another error is reported"
+            if generic is None and not f.ret_ty.startswith("core::result::Result<") and f.kind != "closure" and _error_path_only(P, f):
+                generic = "%s is only called on paths that return an error: best-effort handling while that error is reported" % f.short
+            if generic is not None:
+                ctx.ob(rid, "%s:%s:%s:%s" % (rid, _module_of(root), _short(cal), d), True,
+                       "result of %s is %s (%s)" % (_short(cal), d, generic), site.loc())
+                continue
+            tkey = (_module_of(root), _short(cal), d)
             reason = BEST_EFFORT.get(tkey)
             seen_table.add(tkey)
-            ctx.ob(rid, "%s:%s:%s:%s" % (rid, root.short, _short(cal), d), reason is not None,
+            ctx.ob(rid, "%s:%s:%s:%s" % (rid, _module_of(root), _short(cal), d), reason is not None,
                    "result of %s is %s (listed: %s)" % (_short(cal), d, reason) if reason else
                    "result of the storage call %s is %s in %s and is not in the reasoned table: a storage error may be dropped"
                    % (_short(cal), d, f.short), site.loc())
@@ -326,7 +389,7 @@ def r03f(ctx, P):
                   "matches (C05 R05.b). In IndexWriter::commit no site that writes `live_docs` / `live_generation` of self (a store "
                   "to the field, or a `&mut` borrow of it handed to a call such as mem::take) and no site that empties the queue "
                   "(`pending_ops.clear/truncate/drain`) can reach an error return")
-    f = P.fn(N.W + "::commit")
+    f = P.inlined(N.W + "::commit")
     if not ctx.anchor(rid, f, "IndexWriter::commit"):
         return
     errs = err_sites(f)
